@@ -381,6 +381,10 @@ pub fn c03_letters() -> Vec<Letter> {
         Letter { kind: L_PUT, map: 2, handle: H_FIRST, key: 0, val: 0 },
         Letter { kind: L_PUT, map: 3, handle: H_FIRST, key: 0, val: 0 },
         Letter { kind: L_PUT, map: 4, handle: H_FIRST, key: 0, val: 0 },
+        Letter { kind: L_PUT, map: 5, handle: H_FIRST, key: 0, val: 0 },
+        // updates through a handle from a repeated *_with_params lookup: the database must still know the map
+        Letter { kind: L_PUT, map: 1, handle: H_PARAMS, key: 0, val: 0 },
+        Letter { kind: L_PUT, map: 3, handle: H_PARAMS, key: 0, val: 0 },
     ];
     for k in [L_FLUSH, L_SYNC_DATA, L_SYNC_ALL] {
         v.push(Letter { kind: k, map: 0, handle: H_FIRST, key: 0, val: 0 });
@@ -401,8 +405,9 @@ pub fn c03(tier: &str, seed: u64) -> i32 {
     let mut ctx = Ctx::new("C03", tier, seed, "fault_enumeration");
     let thorough = ctx.thorough();
     ctx.pool = Pool::new(ctx.pool.size(), shim_env(), vec![]);
-    let mut m0 = std_map(KtId::Bytes, 64, 2, 9, seed, "m");
+    let mut m0 = std_map(KtId::Bytes, 64, 2, 9, seed, "m.a");
     m0.params.val = BufP::Auto;
+    let m5 = std_map(KtId::Bytes, 8, 1, 7, seed, "m.b");
     // one more map of every other key type: a database-level sync must reach every open map of every type
     let m1 = std_map(KtId::U64, 8, 1, 8, seed, "other-u64");
     let m2 = std_map(KtId::Str, 8, 1, 6, seed, "other-string");
@@ -410,7 +415,7 @@ pub fn c03(tier: &str, seed: u64) -> i32 {
     let m4 = std_map(KtId::Vu64, 8, 1, 8, seed, "other-vu64");
     let cfg = BCfg {
         prop: "C03".into(),
-        maps: vec![m0, m1, m2, m3, m4],
+        maps: vec![m0, m1, m2, m3, m4, m5],
         val_lens: vec![6, 300_000],
         letters: c03_letters(),
         depth: if thorough { 5 } else { 4 },
@@ -811,13 +816,25 @@ fn c16_run(bw: &mut BWorker, payload: &[u8], io: &mut WorkerIo) -> Vec<u8> {
         }
         th.sort();
         th.dedup();
+        // 0 deviations: the call returned Ok without any refusal, so everything must be durable now
+        // (a call that writes nothing while updates are pending could never report a refusal either)
+        let snap0 = bw.scratch.fresh("c16snap0");
+        if let Err(e) = copy_dir(&dir, &snap0) {
+            return Err(format!("machinery: copy: {e}"));
+        }
+        let cov = covered(&cfg, &st.opened_once, &dl);
+        if let Some(e) = check_files(&cfg, &snap0, &st.models, &cov).or_else(|| check_reopen(&cfg, &snap0, &st.models, &cov, None)) {
+            st.drop_all();
+            return Err(format!("NOT-DURABLE {dname} returned Ok with no write refused ({w} write calls), but a copy of the directory: {e}"));
+        }
         st.drop_all();
         Ok((w, th))
     };
     let (w, thresholds) = match count_writes(bw, &mut out) {
         Ok(w) => w,
         Err(e) => {
-            out.failure = Some((seq.clone(), dpos, "c16:baseline".into(), e));
+            let key = if e.starts_with("NOT-DURABLE") { format!("c16:{}:ok-but-not-durable", kind_name(dl.kind)) } else { "c16:baseline".to_string() };
+            out.failure = Some((seq.clone(), dpos, key, e));
             return out.enc();
         }
     };
@@ -935,6 +952,10 @@ fn c16_run(bw: &mut BWorker, payload: &[u8], io: &mut WorkerIo) -> Vec<u8> {
                 }
             }
         }
+        // a read-only call between the failure and the retry must not make the retry a no-op
+        if k1 % 2 == 1 {
+            let _ = st.exec(&cfg, &Letter { kind: L_FILL, ..dl });
+        }
         // a later flush succeeds and makes everything durable
         let fl = Letter { kind: if matches!(dl.kind, L_DB_SYNC_ALL | L_DB_SYNC_DATA) { dl.kind } else { L_FLUSH }, ..dl };
         if let Some(e) = st.exec(&cfg, &fl) {
@@ -1020,6 +1041,8 @@ fn c16_geometry(ctx: &mut Ctx, label: &str, m0: BMap, val_lens: Vec<u32>, limit:
     // a second, small map of the key type the database syncs last: a database-level sync must report
     // the failure of an earlier map even if the last one succeeds
     updates.push(Letter { kind: L_PUT, map: 1, handle: H_FIRST, key: 0, val: 0 });
+    // a successful flush inside the history: what is updated after it must be written by the next one
+    updates.push(Letter { kind: L_FLUSH, map: 0, handle: H_FIRST, key: 0, val: 0 });
     let nu = updates.len();
     let mut letters = updates;
     for k in [L_FLUSH, L_SYNC_DATA, L_SYNC_ALL, L_DB_SYNC_ALL, L_DB_SYNC_DATA] {
@@ -1123,13 +1146,13 @@ pub fn c16(tier: &str, seed: u64) -> i32 {
     // file-size limit): a 65536-bucket table; 300000-byte values on a 16-bucket table; 3000-byte keys on a 16-bucket table
     let mut hdone = 0usize;
     let mut complete = true;
-    let deep = if thorough { 3 } else { 2 };
+    let deep = if thorough { 4 } else { 2 };
     let geoms: Vec<(&str, BMap, Vec<u32>, usize)> = vec![
         ("table file largest (65536 buckets)", std_map(KtId::Bytes, 65536, 2, 9, seed, "m"), vec![6, 300_000], deep),
-        ("value file largest (16 buckets, 300000-byte values)", std_map(KtId::Bytes, 16, 2, 9, seed, "m"), vec![6, 300_000], 3),
-        ("key file largest (16 buckets, 3000-byte keys)", std_map(KtId::Bytes, 16, 2, 3000, seed, "m"), vec![1, 9], 3),
+        ("value file largest (16 buckets, 300000-byte values)", std_map(KtId::Bytes, 16, 2, 9, seed, "m"), vec![6, 300_000], if thorough { 4 } else { 3 }),
+        ("key file largest (16 buckets, 3000-byte keys)", std_map(KtId::Bytes, 16, 2, 3000, seed, "m"), vec![1, 9], if thorough { 4 } else { 3 }),
     ];
-    let per = if thorough { 400.0 } else { 25.0 };
+    let per = if thorough { 900.0 } else { 25.0 };
     for (label, m0, vl, max_u) in geoms {
         let (h, c) = c16_geometry(&mut ctx, label, m0, vl, per, max_u);
         hdone += h;
